@@ -187,6 +187,37 @@ func (p *Prog) classifyLoop(fn *ssa.Function, l *Loop) (loopClass, bool) {
 // geometricLoop: m ← m·R (R >= 2) with an exit as soon as m > B, or
 // x ← x / k (k >= 2, unsigned) with an exit as soon as x == 0; the update and
 // the test are on every cycle.
+// loopCondValue sees through a "keep going" flag: a boolean phi in the loop whose incoming values from outside
+// the loop are the constant true and whose incoming values from inside are one and the same value B.  A test of
+// the phi is then, on every visit but the first (where it lets the loop run), a test of B as computed at the
+// end of the previous cycle:  for more := true; more; { ...; more = x > 0 }  ≡  for { ...; if !(x > 0) { break } }.
+func loopCondValue(l *Loop, v ssa.Value) ssa.Value {
+	phi, ok := v.(*ssa.Phi)
+	if !ok || !l.Blocks[phi.Block()] {
+		return v
+	}
+	if bt, ok := phi.Type().Underlying().(*types.Basic); !ok || bt.Kind() != types.Bool {
+		return v
+	}
+	var inner ssa.Value
+	for i, e := range phi.Edges {
+		if !l.Blocks[phi.Block().Preds[i]] {
+			if c, ok := e.(*ssa.Const); !ok || c.Value == nil || c.Value.String() != "true" {
+				return v
+			}
+			continue
+		}
+		if inner != nil && inner != e {
+			return v
+		}
+		inner = e
+	}
+	if inner == nil {
+		return v
+	}
+	return inner
+}
+
 func (p *Prog) geometricLoop(fn *ssa.Function, l *Loop) (loopClass, bool) {
 	for b := range l.Blocks {
 		iff, ok := terminator(b).(*ssa.If)
@@ -197,7 +228,7 @@ func (p *Prog) geometricLoop(fn *ssa.Function, l *Loop) (loopClass, bool) {
 		if !exitsTrue && !exitsFalse {
 			continue
 		}
-		bo, ok := iff.Cond.(*ssa.BinOp)
+		bo, ok := loopCondValue(l, iff.Cond).(*ssa.BinOp)
 		if !ok {
 			continue
 		}
